@@ -1,6 +1,18 @@
 import Tx3Proofs.C01
+import Tx3Proofs.C01Assets
+import Tx3Proofs.C01Lovelace
 #print axioms Tx3.Lang.eval_int
 #print axioms Tx3.Lang.lower_int
 #print axioms Tx3.Lang.C01_int_fragment
 #print axioms Tx3.Lang.C01_sub_chain
 #print axioms Tx3.Lang.C01_sub_chain_distinct
+#print axioms Tx3.assetsOfChildren_amt
+#print axioms Tx3.reread_canonical
+#print axioms Tx3.C01_assets_add
+#print axioms Tx3.C01_assets_neg
+#print axioms Tx3.C01_assets_sub
+#print axioms Tx3.C01_assets_sub_chain
+#print axioms Tx3.arithAdd_ok
+#print axioms Tx3.arithSub_ok
+#print axioms Tx3.Lang.lower_lovelace
+#print axioms Tx3.Lang.C01_lovelace_fragment
